@@ -708,6 +708,18 @@ def c18(res, tier, seed, lib):
         if exact:
             res.check(g == exact[0], "exact-rgb-maps-to-first-synonym", "cli:format-name", t, "got %s, names with this RGB %s" % (g, exact))
         ops.append("name " + i.wire)
+    # a dense lattice through stdin, judged by the independent formula only (the model comparison below
+    # runs on the smaller set): colours far from every name are where a shortcut in the distance shows
+    lstep = 5 if tier == "thorough" else 9
+    lattice = ["rgb(%d,%d,%d)" % (r, g, b) for r in range(0, 256, lstep) for g in range(0, 256, lstep) for b in range(0, 256, lstep)]
+    rc, out, err = run_cli(["format", "name"], stdin=("\n".join(lattice) + "\n").encode(), timeout=600)
+    lnames = out.decode().split("\n")[:-1]
+    res.check(rc == 0 and len(lnames) == len(lattice), "exit-0", "cli:format-name", "lattice step %d on stdin" % lstep, "rc=%s lines=%d of %d" % (rc, len(lnames), len(lattice)))
+    lnear = harness_query(["nearest " + hexs(t) for t in lattice])
+    for t, g, nr in zip(lattice, lnames, lnear):
+        res.case("name " + t, True)
+        parts = nr.split(" ")
+        res.check(g in parts[2].split(","), "name-within-0.001-of-minimum", "cli:format-name", t, "got %s, nearest %s" % (g, parts[2]))
     outs = model_batch(ops)
     for t, g, mo, op in zip(texts, got, outs, ops):
         res.model_op()
@@ -756,6 +768,26 @@ def c16(res, tier, seed, lib):
                 elif strat == "gray":
                     r, g, b = rgb_of(i)
                     res.check(r == g == b, "gray-achromatic", "cli:random", inp, l)
+    # many colours, judged on the printed text itself: a value in [0.2, 0.8] prints as 20.0 .. 80.0 (one
+    # decimal), so every printed vivid saturation / lightness lies in those closed ranges, and a gray prints 0.0%
+    big = 200000 if tier == "thorough" else 30000
+    for strat in ["vivid", "gray"]:
+        rc, out, err = run_cli(["random", "-n", str(big), "-s", strat], timeout=120)
+        lines = out.decode().split("\n")[:-1]
+        inp = "random -n %d -s %s" % (big, strat)
+        res.case(inp)
+        res.check(rc == 0 and len(lines) == big, "prints-exactly-N", "cli:random", inp, "rc=%s, %d lines" % (rc, len(lines)))
+        bad = []
+        for l in lines:
+            m = re.match(r"^hsl\((\d+),(\d+\.\d)%,(\d+\.\d)%\)$", l)
+            if not m:
+                bad.append(l); continue
+            hh, ss, ll = int(m.group(1)), float(m.group(2)), float(m.group(3))
+            if strat == "vivid" and not (0 <= hh <= 360 and 20.0 <= ss <= 80.0 and 30.0 <= ll <= 70.0):
+                bad.append(l)
+            if strat == "gray" and not (ss == 0.0 and 0.0 <= ll <= 100.0):
+                bad.append(l)
+        res.check(not bad, "printed-ranges-%s" % strat, "cli:random", inp, "%d lines outside, e.g. %s" % (len(bad), bad[:3]))
     # defaults: 10 colours of the vivid strategy; strategy names in other letter cases
     rc, out, err = run_cli(["random"])
     lines = out.decode().split("\n")[:-1]
